@@ -722,6 +722,12 @@ impl<'s> Parser<'s> {
     /// (This restriction is somewhat arbitrary, but it's so we can put
     /// the abbreviation in a fixed capacity array.)
     fn parse_abbreviation(&self) -> Result<Abbreviation, Error> {
+        if self.is_done() {
+            return Err(err!(
+                "expected time zone abbreviation, \
+                 but found the end of string instead"
+            ));
+        }
         if self.byte() == b'<' {
             if !self.bump() {
                 return Err(err!(
